@@ -18,7 +18,7 @@ def exact (e : Int) (a : Ans) : Bool :=
 def counts (e : Int) (T : Nat) (p : Poll) : Bool := p.cost < T && exact e p.ans
 
 /-- Duration of a poll that did not count (wrong version sleeps, errors do not). -/
-def dur (e : Int) (T i : Nat) (p : Poll) : Nat :=
+def dur (_e : Int) (T i : Nat) (p : Poll) : Nat :=
   match p.ans with
   | .body s => if p.cost < T then (match atoi s with | some _ => p.cost + i | none => p.cost) else T
   | _ => min p.cost T
